@@ -7,6 +7,8 @@ GO126 = ["go1.26.8"]
 BINARIES = {
     # all engines on the repository's own toolchain
     "hx": {"go": GO, "pkg": "./hx/", "flags": [], "env": {"GOTOOLCHAIN": "auto"}},
+    # virtual-time engines (testing/synctest needs the newer toolchain)
+    "vt": {"go": GO126, "pkg": "./vt/", "flags": [], "env": {"GOTOOLCHAIN": "local"}},
     # message constructors / decoders (small dependency tree: fast native fuzzing)
     "wire": {"go": GO, "pkg": "./wire/", "flags": [], "env": {"GOTOOLCHAIN": "auto"}},
 }
@@ -84,6 +86,29 @@ prop("C13", "Stored channels survive schema migration unchanged", "exploration",
      "generated version-2 stores (every status incl. the deprecated ones, arbitrary field values, 0..6 channels); sampled",
      "trusts the harness's own CBOR writer for the version-2 layout")
 
+def vt(test, quick, thorough, shards=16, **kw):
+    d = {"bin": "vt", "test": test, "quick": quick, "thorough": thorough, "shards_thorough": shards}
+    d.update(kw)
+    return d
+
+
+prop("C14", "Channel monitor: restarts serialized and bounded; one verdict per channel", "exploration", "mon",
+     "property testing (rapid) on virtual time (testing/synctest): generated configs x timed event scripts x failure scripts against invariants over the time-stamped call log of a monitor-API double",
+     [vt("TestC14_Mon", 20000, 2400000), vt("TestC14_MonNoFailures", 10000, 1200000)],
+     ["ties between a delivered event and an internal timer are excluded by construction (event instants are multiples of 10 ms, durations carry a 1..3 us residue; a zero debounce is generated as 1..3 us); ties between two internal instants are tolerated in either order",
+      "only time is virtual: goroutine scheduling inside the bubble is still Go's"],
+     "generated timed scripts with exact virtual-time instants; sampled, not exhaustive",
+     "trusts testing/synctest's virtual clock (go1.26.8) and the monitor-API double")
+
+prop("C15", "Network sends retry boundedly, deliver once; inbound dispatch is faithful", "fault_enumeration", "netx",
+     "property testing (rapid) on virtual time over a scripted libp2p host double: stream-open failure patterns (all patterns up to the cap enumerated), cancel instants, write faults, inbound byte streams against call-log oracles",
+     [vt("TestC15_Send", 10000, 800000), vt("TestC15_SendPatterns", 1, 1, shards=1, rapid=False), vt("TestC15_Inbound", 10000, 800000)],
+     ["attempt counts are integral as every caller passes them; 0 behaves as 1 (a send always tries once)",
+      "one message per inbound stream (what every sender produces); a stream that ends inside a CBOR value is treated as ended early (no report required), any other undecodable content must be reset and reported"],
+     "every fail/succeed pattern of stream opens up to the cap (caps 0..6) is enumerated; cancel instants, latencies, write faults and inbound contents are sampled",
+     "trusts testing/synctest's virtual clock and the host / stream doubles",
+     exhaustive_note="TestC15_SendPatterns enumerates all 2^n fail/succeed patterns for attempt caps 0..6")
+
 prop("C17", "Subscribers see every applied event once, in order", "exploration", "mgrx",
      "stateful property testing (rapid): subscriber call logs compared with the datastore write log (independent DAG-CBOR reader) and with a witness subscriber restricted to fenced subscription windows",
      [hx("TestC17_Mgrx", 1000, 24000)],
@@ -137,6 +162,8 @@ prop("C19", "Channel state views are total and self-consistent", "exploration", 
      TRUST)
 
 ENGINES = [
+    {"name": "mon", "path": "harness/vt/mon_test.go", "serves_properties": ["C14"], "kind_free_text": "rapid property tests of channelmonitor in a testing/synctest bubble (go1.26.8)"},
+    {"name": "netx", "path": "harness/vt/netx_test.go", "serves_properties": ["C15"], "kind_free_text": "rapid property tests of network.NewFromLibp2pHost over a scripted host double in a testing/synctest bubble (go1.26.8)"},
     {"name": "mig", "path": "harness/hx/mig_test.go", "serves_properties": ["C13"], "kind_free_text": "rapid property tests opening version-2 datastores written by an independent encoder"},
     {"name": "wire", "path": "harness/wire", "serves_properties": ["C12"], "kind_free_text": "rapid property tests and a native fuzz target over the message constructors and decoders, with an independent schema encoder"},
     {"name": "mgrx", "path": "harness/hx (mgrx_*_test.go, rig_mgr_test.go)", "serves_properties": ["C02", "C03", "C04", "C05", "C08", "C09", "C10", "C11", "C17", "C19"], "kind_free_text": "rapid property tests driving a real manager (impl.NewDataTransfer) over a recording datastore, transport, network and scripted validators"},
